@@ -39,6 +39,7 @@ type c04Case struct {
 	Req    HReq   `json:"request"`
 	WatchS int    `json:"watch_s,omitempty"`
 	NonTerm bool  `json:"non_terminating,omitempty"`
+	Pre     []HReq `json:"pre,omitempty"` // set-up requests issued before the hostile one
 }
 
 func c04Route(body string) string {
@@ -61,6 +62,24 @@ func c04Cases(r *mon.Run) []c04Case {
 	for _, op := range []string{"!", "-"} {
 		for _, a := range c04Shapes {
 			add("unop", op+":"+a.name, fmt.Sprintf("  $ a = %s\n  > {x: %sa}\n", a.src, op))
+		}
+	}
+	// provider calls with hostile arguments against records that hold arrays / objects: the
+	// call may fail, but the provider must stay usable — the canary of this family writes to
+	// and reads from all three in-memory providers afterwards
+	provMod := func(expr string) string {
+		return "@ POST /seed {\n  % db: Database\n  % redis: Redis\n  % mongo: MongoDB\n  $ r = db.items.create({id: \"r1\", tags: [1, 2], meta: {a: 1}, n: 5})\n  $ s = redis.set(\"k\", \"v\")\n  $ c = mongo.Collection(\"c\")\n  $ i = c.InsertOne({k: \"m1\", tags: [1, 2], meta: {a: 1}})\n  > {ok: true}\n}\n\n" +
+			"@ GET /t {\n  % db: Database\n  % redis: Redis\n  % mongo: MongoDB\n  $ c = mongo.Collection(\"c\")\n  > {x: " + expr + "}\n}\n\n" +
+			"@ GET /__alive {\n  % db: Database\n  % redis: Redis\n  % mongo: MongoDB\n  $ r = db.items.create({id: \"canary\", n: 1})\n  $ s = redis.set(\"canary\", \"1\")\n  $ c = mongo.Collection(\"c\")\n  $ i = c.InsertOne({k: \"canary\"})\n  > {alive: true, n: db.items.length(), g: redis.get(\"canary\"), m: c.CountDocuments({})}\n}\n"
+	}
+	hostile := []string{"[1, 2]", "{a: 1}", "null", "[[1]]", "{a: [1]}", "7", "\"r1\"", "2.5", "true"}
+	for _, a := range hostile {
+		for _, call := range []string{"db.items.count(\"tags\", %s)", "db.items.count(\"meta\", %s)", "db.items.filter(\"tags\", %s)", "db.items.filter(\"meta\", %s)", "db.items.countWhere(\"tags\", %s, \"n\", 5)",
+			"db.items.countWhere(\"n\", 5, \"meta\", %s)", "db.items.get(%s)", "db.items.update(%s, {n: 2})", "db.items.update(\"r1\", %s)", "db.items.delete(%s)", "db.items.create(%s)", "db.items.count(%s, 1)", "db.items.filter(%s, %s)",
+			"redis.set(\"k\", %s)", "redis.get(%s)", "redis.del(%s)", "redis.incr(%s)", "redis.hset(\"h\", \"f\", %s)", "redis.lpush(\"l\", %s)", "redis.sadd(\"s\", %s)", "redis.expire(\"k\", %s)",
+			"c.Find(%s)", "c.FindOne({tags: %s})", "c.UpdateOne({meta: %s}, {x: 1})", "c.UpdateOne({k: \"m1\"}, %s)", "c.DeleteOne(%s)", "c.InsertOne(%s)", "c.CountDocuments({meta: %s})"} {
+			expr := strings.ReplaceAll(call, "%s", a)
+			cs = append(cs, c04Case{Family: "provider-call-then-canary", Detail: expr, Src: provMod(expr), Req: HReq{M: "GET", P: "/t"}, Pre: []HReq{{M: "POST", P: "/seed", B: sp("{}")}}})
 		}
 	}
 	// values that are not plain data: a function reference, a future, the request objects, a
@@ -258,7 +277,7 @@ func checkC04(tier string) {
 	var jobs []HJob
 	for i, c := range cases {
 		for mode := 0; mode < 2; mode++ {
-			jobs = append(jobs, HJob{ID: i*2 + mode, Src: c.Src, Interp: mode == 1, Reqs: []HReq{c.Req, {M: "GET", P: "/__alive"}}, WatchS: c.WatchS})
+			jobs = append(jobs, HJob{ID: i*2 + mode, Src: c.Src, Interp: mode == 1, Pre: c.Pre, Reqs: []HReq{c.Req, {M: "GET", P: "/__alive"}}, WatchS: c.WatchS})
 		}
 	}
 	res, err := httpRun(r, jobs, HRunOpts{Tag: "c04", Timeout: 40 * 60 * 1e9, MemKB: 8 << 20})
@@ -387,6 +406,9 @@ func c04Library(c c04Case, interp bool) string {
 	mod, err := parseModule(c.Src)
 	if err != nil || firstRoute(mod) == nil {
 		return "?"
+	}
+	if strings.Contains(c.Src, "% db:") {
+		return "?" // providers are injected by the CLI wiring, not by this driver
 	}
 	if interp {
 		o := runInterp(nil, mod, c.Req.P)
